@@ -180,6 +180,8 @@ pub trait RF: Clone + PartialEq + std::fmt::Debug {
     fn is_odd(&self) -> bool;
     /// from canonical 32-byte coordinates, real part first (1 part for Fq, 2 for Fq2)
     fn from_parts(parts: &[[u8; 32]]) -> Option<Self>;
+    /// a cube root, when the field supports it here (Fq: q = 4 mod 9) and one exists
+    fn cbrt(&self) -> Option<Self>;
     fn sqr(&self) -> Self {
         self.mul(self)
     }
@@ -251,6 +253,15 @@ impl RF for Q {
             return None;
         }
         Q::from_bytes(&parts[0])
+    }
+    fn cbrt(&self) -> Option<Self> {
+        let e = ((q() * 2u32) + 1u32) / 9u32;
+        let x = Q(self.0.modpow(&e, q()));
+        if x.sqr().mul(&x) == *self {
+            Some(x)
+        } else {
+            None
+        }
     }
 }
 
@@ -374,6 +385,9 @@ impl RF for Q2 {
             return None;
         }
         Some(Q2 { c0: Q::from_bytes(&parts[0])?, c1: Q::from_bytes(&parts[1])? })
+    }
+    fn cbrt(&self) -> Option<Self> {
+        None
     }
 }
 
